@@ -6,6 +6,7 @@ CONSTANTS
   BugNextArgNoSkip = FALSE
   BugUseFlagAll = FALSE
   BugOptionalOrigState = FALSE
+  BugNames = "none"
 VIEW View
 INVARIANTS ObsNothingDropped
 CHECK_DEADLOCK FALSE
